@@ -90,7 +90,7 @@ bool same_geo(const GeodeticCoordinates& x, const GeodeticCoordinates& y) { retu
 struct Alphabet {
   std::vector<GeodeticCoordinates> A, G; std::vector<Eigen::Vector3d> P;
   Alphabet() {
-    A = {makeGeodeticCoordinates(0.8, 0.05, 300), makeGeodeticCoordinates(-1.2, 3.1415, -20), makeGeodeticCoordinates(0.1, -2.0, 9000)};
+    A = {makeGeodeticCoordinates(0.8, 0.05, 300), makeGeodeticCoordinates(-1.2, 3.1415, -20), makeGeodeticCoordinates(0.0, 0.0, 0.0)};   // A2 = the value-initialised coordinate (sentinel collisions)
     G = {makeGeodeticCoordinates(0.8001, 0.0502, 310), makeGeodeticCoordinates(-1.2, 3.1415, -20), makeGeodeticCoordinates(0.3, 1.0, 0)};
     P = {Eigen::Vector3d(10, -20, 5), Eigen::Vector3d(-5e4, 8e4, -1e3)};
   }
